@@ -57,9 +57,46 @@ func runC13(c *Check) {
 				}
 			}
 		}
+		if found == 0 {
+			// delegation: `return OtherConstructor(pub, topic, <literal filter>)`
+			if call := c13Delegation(fn); call != nil {
+				target := CalleeFn(&call.Call)
+				okArgs := true
+				for _, prm := range fn.Params {
+					passed := false
+					for i, a := range call.Call.Args {
+						if FromParam(prm)(a) && i < len(target.Params) && types.Identical(target.Params[i].Type(), prm.Type()) {
+							passed = true
+						}
+					}
+					if !passed {
+						okArgs = false
+					}
+				}
+				c.Report(okArgs, P+".O2", "CTOR-DELEGATES", fn, call.Pos(), ctor, "the constructor hands its publisher and topic on to "+target.Name()+", which builds the middleware")
+				for _, a := range call.Call.Args {
+					if lit := FuncOfValue(firstOrigin(a)); lit != nil {
+						c13AcceptAll(c, P, fn, lit)
+					}
+				}
+				continue
+			}
+		}
 		c.Floor(P, ctor+" returns a bound middleware method", found, 1)
 		// the constructor stores its topic/pub/filter parameters into the struct it binds
 		c13Ctor(c, P, fn)
+		if ctor == "PoisonQueue" {
+			n := 0
+			AllInstrs(fn, func(in ssa.Instruction) {
+				if st, ok := in.(*ssa.Store); ok {
+					if lit := FuncOfValue(firstOrigin(st.Val)); lit != nil && lit.Parent() == fn {
+						n++
+						c13AcceptAll(c, P, fn, lit)
+					}
+				}
+			})
+			c.Floor(P+".O2", "PoisonQueue: default filter literal", n, 1)
+		}
 	}
 	for _, outer := range outers {
 		m := c.middleware(P, outer, "poison queue middleware")
@@ -67,6 +104,11 @@ func runC13(c *Check) {
 			continue
 		}
 		c13Middleware(c, P, m)
+	}
+	// the names the poison message carries are read from the consumed message's context, where the Router put them
+	// for exactly the handler that consumed it (decided as C08.O3)
+	if r := c.routerRoles2(P + ".O3"); r != nil {
+		c08Context(c, P, r)
 	}
 }
 
@@ -320,4 +362,44 @@ func firstOrigin(v ssa.Value) ssa.Value {
 		return os[0]
 	}
 	return v
+}
+
+// c13Delegation: every return of fn hands back the results of one call to
+// another constructor of the same package.
+func c13Delegation(fn *ssa.Function) *ssa.Call {
+	var call *ssa.Call
+	for _, r := range Returns(fn) {
+		for _, v := range r.Results {
+			var c2 *ssa.Call
+			switch x := v.(type) {
+			case *ssa.Call:
+				c2 = x
+			case *ssa.Extract:
+				c2, _ = x.Tuple.(*ssa.Call)
+			}
+			if c2 == nil || (call != nil && c2 != call) {
+				return nil
+			}
+			call = c2
+		}
+	}
+	if call == nil {
+		return nil
+	}
+	if t := CalleeFn(&call.Call); t == nil || t.Pkg != fn.Pkg || t == fn {
+		return nil
+	}
+	return call
+}
+
+// c13AcceptAll: the filter PoisonQueue installs by default accepts every error.
+func c13AcceptAll(c *Check, P string, ctor, lit *ssa.Function) {
+	ok := len(Returns(lit)) > 0
+	for _, r := range Returns(lit) {
+		cst, isC := r.Results[0].(*ssa.Const)
+		if !isC || cst.Value == nil || cst.Value.String() != "true" {
+			ok = false
+		}
+	}
+	c.Report(ok, P+".O2", "DEFAULT-FILTER-ACCEPTS-ALL", ctor, lit.Pos(), "PoisonQueue default filter", "without a filter every handler error qualifies for the poison queue")
 }
